@@ -437,7 +437,7 @@ theorem glue_ones_spSplitA (s : List Char) : ∀ cur,
       rw [glue_ones_cons, this, hc]; simp
     · rw [ih]; simp
 
-theorem cellLen_pyRstrip_le (cw : Char → Nat) (s : List Char) : cellLen cw (pyRstrip s) ≤ cellLen cw s := by
+theorem cellLen_pyRstrip_le_full (cw : Char → Nat) (s : List Char) : cellLen cw (pyRstrip s) ≤ cellLen cw s := by
   have h : cellLen cw s = cellLen cw (s.take (rlen s)) + cellLen cw (s.drop (rlen s)) := by
     rw [← cellLen_append, List.take_append_drop]
   rw [pyRstrip_eq_take]; omega
@@ -455,7 +455,7 @@ theorem glue_fullSpaces_fits (cw : Char → Nat) (hsp : cw ' ' = 1) (s' line : L
     · rw [pyRstrip_append_space _ _ (by intro c hc; simp at hc; subst hc; exact space_isSpace)] at hfit
       exact hfit
   · have := cellLen_glue cw hsp _ _ hlen
-    have h2 := cellLen_pyRstrip_le cw (glue (spSplitA [] s')
+    have h2 := cellLen_pyRstrip_le_full cw (glue (spSplitA [] s')
       (fullSpaces ((spSplitA [] s').map (cellLen cw)).sum (spSplitA [] s').length w))
     omega
 
